@@ -94,6 +94,12 @@ func (s *syncer) AddChunk(chunk *chunk) (bool, error) {
 	if s.chunks == nil {
 		return false, errors.New("no state sync in progress")
 	}
+	if s.snapshots.IsPeerRejected(chunk.Sender) {
+		// the application rejected this sender: nothing it sends is used again
+		s.logger.Debug("Ignoring chunk from rejected sender", "height", chunk.Height, "format", chunk.Format,
+			"chunk", chunk.Index, "peer", chunk.Sender)
+		return false, nil
+	}
 	added, err := s.chunks.Add(chunk)
 	if err != nil {
 		return false, err
